@@ -164,4 +164,8 @@ def obligations():  # noqa: F811
     # the filter only stands for the reading of empty items if the translator engages it: flag accumulation over all DATA
     # statements and the READ/DATA patching protocol (shared with C03)
     from tx.p_c03 import empty_item_protocol
-    return _c20_base() + filter_chain() + empty_item_protocol()
+    # a helper computes its function only if it is there: every helper a statement calls is bundled with everything it calls, however many
+    # calls stand on one line (shared with C13); READ targets are stored in READ order (shared with C05)
+    from tx.p_c05 import share, read_targets_through_filter
+    from tx import p_c13
+    return _c20_base() + filter_chain() + empty_item_protocol() + share("bundled/", p_c13.small_graphs() + p_c13.bundle_closed_through_convert()) + share("read/", read_targets_through_filter())
